@@ -172,6 +172,10 @@ type s3Backend struct {
 
 func openS3(prefix string, unc bool, pageSize int, fault *Fault) *s3Backend {
 	srv := fakes3.New()
+	// Connection re-use is safe here: the scripted faults used (403, truncated LIST body) are
+	// real HTTP answers, which Go's transport never replays; one connection per request would
+	// leave ~10 sockets in TIME_WAIT per case.
+	srv.KeepAlive(true)
 	restore := fakes3.NoRetry()
 	s, err := fakes3.ChunkStore(srv, s3Bucket, prefix, desync.StoreOptions{Uncompressed: unc})
 	if err != nil {
